@@ -22,3 +22,12 @@ add("C08", "property-based testing: generated CRL parameters -> independent deco
 add("C09", "property-based testing with metamorphic relation: generated (instant, nanosecond, offset) placed in all five time fields, parsed back strictly; boundary sweeps second by second",
     "Round trip through a strict time parser plus the metamorphic relation 'same instant at another offset gives identical bytes'; the neighbourhoods of the four boundaries are swept (every second x 41 offsets in thorough).",
     DEC + " and its civil-calendar arithmetic.", "DESIGN.md §4 C09")
+add("C13", "exhaustive enumeration + property-based testing: every Unicode scalar value x 5 string types x 3 constructors against transcribed alphabet predicates; every UTF-16 / UTF-32 code unit for the byte-level constructors; random mixed strings; accepted values serialised and decoded back",
+    "The one-character sub-space (5 x 1 112 064 values) and the single-unit sub-spaces of the byte-level constructors are enumerated completely; multi-character strings and unit sequences are sampled; accepted values round-trip through a certificate and an independent decoder.",
+    DEC + "; the alphabet predicates are transcribed from the property text.", "DESIGN.md §4 C13")
+add("C14", "property-based testing: generated artefacts of steered lengths -> strict independent RFC 7468 decoder must return the DER accessor's bytes; rcgen's and OpenSSL's PEM loaders as cross-checks",
+    "Round trip through a strict decoder; a complete sweep of padding lengths covers every DER-length residue mod 3 and mod 48 for certificates, CSRs and CRLs; all fixture keys for the two key kinds.",
+    "Trusts the harness's strict PEM/base64 decoder (unit-tested) and OpenSSL's PEM reader.", "DESIGN.md §4 C14")
+add("C20", "model-based testing: operation sequences against a Vec reference model, bounded-exhaustive up to length 5/6 over 9 operations, random beyond",
+    "Stateful model-based search: every push/remove sequence up to length 5 (quick) or 6 (thorough) over a 3-type x 2-value alphabet is enumerated and observed after each step; longer random histories over 12 types; the equality relation and the encoded order are checked too.",
+    "The Vec model is the specification; " + DEC + " for the encoded order.", "DESIGN.md §4 C20")
